@@ -1094,7 +1094,7 @@ def check(run):
     plan = {"hm": (70, 300), "ul": (50, 180), "pl": (30, 140), "sa": (30, 120), "rb": (30, 80), "xs": (40, 90),
             "av": (30, 180), "po": (30, 60)}
     if not quick:
-        plan = {c: (n * 40, sz * 2) for c, (n, sz) in plan.items()}
+        plan = {c: (n * 120, sz * 2) for c, (n, sz) in plan.items()}
     scripts = load_corpus()
     for c in sorted(plan):
         n, sz = plan[c]
